@@ -45,7 +45,7 @@ def size_of(i, bs):
 
 # weighted table of file-system ops; index 0 is the simplest
 FS_OPS = (["create"] * 7 + ["delete"] * 4 + ["append"] * 2 + ["truncate"] * 2 + ["rewrite"] * 2 + ["touch"] * 3 + ["rename"] * 2 +
-          ["move"] * 2 + ["copy"] * 3 + ["mkdir"] + ["rmdir"] + ["create_same"] + ["undelete"] * 3 + ["rewrite_same_sec"] + ["symlink"] + ["hardlink"] + ["file_to_dir"] + ["file_to_link"])
+          ["move"] * 2 + ["copy"] * 3 + ["mkdir"] + ["rmdir"] + ["create_same"] + ["undelete"] * 3 + ["rewrite_same_sec"] + ["empty_disk"] + ["symlink"] + ["hardlink"] + ["file_to_dir"] + ["file_to_link"])
 FS_OPS_NOLINK = [o for o in FS_OPS if o not in ("symlink", "hardlink", "file_to_dir", "file_to_link")]
 
 STEP = st.tuples(st.integers(0, 255), st.integers(0, 255), st.integers(0, 255), st.integers(0, 255), st.integers(0, 1 << 20))
@@ -95,6 +95,8 @@ def _decode_fs(t, bs, ndisks, odd=True, links=True):
         return {"op": op, "disk": disk, "fi": b, "disk2": d2, "name": name_of(c, odd), "keep_name": keep}
     if op == "move":
         return {"op": op, "disk": disk, "fi": b, "disk2": (a // ndisks) % ndisks, "name": name_of(c, odd)}
+    if op == "empty_disk":
+        return {"op": op, "disk": disk}
     if op == "mkdir":
         return {"op": op, "disk": disk, "name": name_of(b, odd)}
     if op == "rmdir":
